@@ -11,7 +11,6 @@ import (
 	"sync"
 	"time"
 
-	"github.com/VictoriaMetrics/fastcache"
 	ethereum "github.com/ethereum/go-ethereum"
 	"github.com/ethereum/go-ethereum/core/types"
 
@@ -200,8 +199,6 @@ func (w *ChainWorld) AwaitCache(id *Ident) error {
 	}
 }
 
-var fastcacheType = reflect.TypeOf((*fastcache.Cache)(nil))
-
 // releaseChainCaches gives the off-heap chunks of the stopped chain's trie and snapshot caches back
 // (fastcache only recycles them on Reset; without this every discarded world keeps ~150 kB that the
 // garbage collector cannot see, which is gigabytes over a deep search).
@@ -220,8 +217,12 @@ func releaseChainCaches(b *backends.SimulatedBackend) {
 				return
 			}
 			seen[v.Pointer()] = true
-			if v.Type() == fastcacheType {
-				accessibleCopy(v).Interface().(*fastcache.Cache).Reset()
+			// (recognised by name: importing the package would make it a direct requirement of the
+			// repository's go.mod)
+			if v.Type().String() == "*fastcache.Cache" {
+				if c, ok := accessibleCopy(v).Interface().(interface{ Reset() }); ok {
+					c.Reset()
+				}
 				return
 			}
 			walk(v.Elem(), depth+1)
